@@ -252,7 +252,7 @@ def read_jsonl(path):
 # --------------------------------------------------------------------------
 # step 5: evaluate model and oracle inside Coq
 
-BAD = re.compile(r"\((\d+)(?:%nat)?,\s*\((true|false),\s*(true|false)\)\)")
+BAD = re.compile(r"\(\s*(\d+)(?:%nat)?,\s*\(\s*(true|false),\s*(true|false)\s*\)\s*\)")
 
 
 def write_shard(prop, cases, path):
@@ -270,6 +270,7 @@ def write_shard(prop, cases, path):
             f.write("Definition c%d : case := %s.\n" % (i, t))
         f.write("Definition cases : list case := [%s].\n" % "; ".join("c%d" % i for i in range(len(terms))))
         f.write("Definition R := Eval vm_compute in bad_cases run_case cases 0.\n")
+        f.write("Set Printing Width 1000000.\n")
         f.write("Print R.\n")
 
 
